@@ -236,10 +236,13 @@ func (e *kvElection) Start(ctx context.Context) error {
 		if parent.Err() == nil {
 			return // ended by Stop/StopWithContext
 		}
+		// Read under the lock becomeLeader holds: a claim raised before the context
+		// ended is seen here, and none is raised after it (becomeLeader checks e.ctx).
 		e.mu.RLock()
 		current := e.ctx == run
+		leads := e.isLeader.Load()
 		e.mu.RUnlock()
-		if current && e.IsLeader() {
+		if current && leads {
 			if e.becomeFollower() {
 				e.notifyDemoted("context_cancelled")
 			}
@@ -410,6 +413,13 @@ func (e *kvElection) becomeLeader(token string, rev uint64) {
 	// A stopped election stays stopped: an acquisition that was still in flight
 	// when Stop/StopWithContext ran must not claim leadership afterwards.
 	if fromState == StateStopped {
+		return
+	}
+
+	// Likewise when the run has ended through its context (the context passed to
+	// Start was cancelled while the acquisition was in flight): every loop has ended
+	// with it, so nobody would refresh the record or ever drop the claim again.
+	if e.ctx != nil && e.ctx.Err() != nil {
 		return
 	}
 
